@@ -78,11 +78,65 @@ class P(b1.Plugin):
 P.type_names = T
 
 
+REF_TARGETS = r"""
+#![allow(warnings)]
+use educe::Educe;
+fn up(s: &'static str) -> &'static str { if s == "a" { "A" } else { "?" } }
+#[derive(Educe)] #[educe(Into(&str))] pub struct A { #[educe(Into(&str))] pub a: &'static str, pub b: &'static str }
+#[derive(Educe)] #[educe(Into(&'static str))] pub struct B { pub a: &'static str, #[educe(Into(&str))] pub b: &'static str }
+#[derive(Educe)] #[educe(Into(&str))] pub enum C { V(#[educe(Into(&'static str, method(up)))] &'static str, u8), W { #[educe(Into(&str))] x: &'static str, y: &'static str } }
+#[derive(Educe)] #[educe(Into(&'static [u8]), Into(u8))] pub struct D(#[educe(Into(&[u8]))] pub &'static [u8], pub &'static [u8], pub u8);
+#[derive(Educe)] #[educe(Into(&str))] pub struct E(pub u8, pub &'static str);
+fn main() {
+    let s: &str = A { a: "a", b: "b" }.into(); println!("A {}", s);
+    let s: &str = B { a: "a", b: "b" }.into(); println!("B {}", s);
+    let s: &str = C::V("a", 1).into(); println!("C1 {}", s);
+    let s: &str = C::W { x: "x", y: "y" }.into(); println!("C2 {}", s);
+    let s: &[u8] = D(b"12", b"34", 5).into(); println!("D {:?}", s);
+    let n: u8 = D(b"12", b"34", 5).into(); println!("D8 {}", n);
+    let s: &str = E(1, "e").into(); println!("E {}", s);
+}
+"""
+
+
+def reference_target_tie(tie):
+    """reference target types, the field marker and the request spelling the lifetime differently (`&str` / `&'static str`)"""
+    import os, subprocess
+    so = common.build_proc_macro()
+    work = common.scratch("C10r")
+    path = os.path.join(work, "refs.rs")
+    open(path, "w").write(REF_TARGETS)
+    rc, diags = common.rustc_compile(path, os.path.join(work, "refs"), so)
+    tie["evaluations"] += 7
+    if rc != 0:
+        errs = [d for d in diags if d.get("level") == "error" and d.get("spans")]
+        e = errs[0] if errs else {"message": "rustc failed", "spans": [{"line_start": 0}]}
+        ln = e["spans"][0]["line_start"]
+        lines = REF_TARGETS.split("\n")
+        tie["failing"].append({"what": "Into with a reference target type is refused or does not compile", "rust_source": lines[ln - 1] if 0 < ln <= len(lines) else "",
+                               "observed": (e.get("rendered") or e.get("message"))[:600], "expected_spec": "accepted; returns the designated field"})
+    else:
+        p = subprocess.run([os.path.join(work, "refs")], capture_output=True, text=True, timeout=60)
+        want = ["A a", "B b", "C1 A", "C2 x", "D [49, 50]", "D8 5", "E e"]
+        got = p.stdout.split("\n")[:-1]
+        if got != want:
+            k = next((j for j in range(min(len(got), len(want))) if got[j] != want[j]), 0)
+            tie["failing"].append({"what": "Into with a reference target returns a different field", "rust_source": REF_TARGETS,
+                                   "observed": got[k] if k < len(got) else p.stderr[-300:], "expected_spec": want[k]})
+    tie["extra"]["reference_target_cases"] = 7
+    import shutil
+    shutil.rmtree(work, ignore_errors=True)
+
+
 def main(tier):
     t0 = time.time()
     proof = common.proof_obligations("C10")
     n_defs, cap_vals = (250, 6) if tier == "quick" else (3000, 20)
     tie = b1.run_b1("C10", P(), n_defs, cap_vals, common.seed())
+    try:
+        reference_target_tie(tie)
+    except (common.BuildError, OSError) as e:
+        tie["broken"].append("harness: " + str(e)[:300])
     # "... else the unique field whose declared type is T": no designation, or more than one, is refused and never resolved
     from .. import attr, offences
     cases = [(i, src) for i, (label, classes, src) in enumerate(offences.generate()) if label.startswith("into-field")]
